@@ -136,3 +136,14 @@ claim("C07", "DESIGN.md §2 C07",
       "cut offset in the last headers before reopen.",
       "Proof-of-work inputs are limited to easy targets (mining must be feasible); hashes in the band between the compact-expanded and the "
       "next mantissa step are a don't-care; forks below the checkpointed chunk are not generated.")
+claim("C12", "DESIGN.md §2 C12",
+      "property-based testing of real DHT nodes on a virtual-time loop over a simulated datagram network whose per-datagram fate is generated; scripted hostile responders from a 28-behaviour catalogue; liveness decided as bounded-time safety on the virtual clock",
+      "hit: 2..24 (thorough ..40) real Node objects with generated ids join through a bootstrap node over a loss-free network with generated "
+      "delay / duplication / reordering; 1..3 announcers announce a generated hash; every other node's value lookup must return them at "
+      "once, after clock jumps of 1 h and 24 h - 5 min, and no longer at 24 h + 5 min. paging: 1..3 real storing nodes receive real store "
+      "RPCs from 0..100 generated announcers; a fresh node's lookup must yield exactly the announcers. faults: a real searcher among scripted "
+      "endpoints (honest, silent, late, lossy, 20 hostile reply shapes, a sybil subnet inventing ever closer contacts, endless pages) with "
+      "loss up to 40%: node and value lookups must end within (find requests + 1) x rpc_timeout of virtual time, send no more requests "
+      "than contacts learned, yield only peers that replied / well-formed public peers, never the searcher, nothing twice.",
+      "Networks, schedules and fault sets are sampled; 'nodes closest to its hash' is asserted weakly (documented in the evidence "
+      "assumptions); no node re-announces in the simulation.")
